@@ -47,6 +47,9 @@ Expected(ev) ==
     \* ANOTHER array (any type) appended: the elements of the first followed by those of the second, each unchanged (C08)
     [] ev.op = "concat2" -> Ok(VList(ev.v.xs \o a.w.xs))
     [] ev.op = "concatperm" -> Ok(VList(ev.v.xs \o ev.v.xs))
+    \* broadcast_arrays(A, A with its fields declared in the opposite order): fields pair by name, so the second output,
+    \* read back in A's field order, is A (C04)
+    [] ev.op = "bcperm" -> Ok(ev.v)
     [] ev.op = "concat1" -> VConcatSelf1(ev.v, ev.T)
     [] ev.op = "zip" -> VZipSelf(ev.v, ev.T)
     [] ev.op = "unflatten" -> VUnflattenLaw(ev.v, ev.T)
